@@ -232,6 +232,45 @@ def all_pts(pcfg):
             yield b, [(t, i) for t, i in zip(reps, idx)]
 
 
+def grammar_derives(pcfg, pw):
+    """does the loaded (non-Markov) grammar spell pw?  Decided by matching pw against every base structure, segment by segment
+    (lengths are fixed by the labels, context strings tried one by one) - used where the language is too large to enumerate"""
+    def values(t):
+        return [v for g in pcfg.grammar.get(t, []) for v in g['values']]
+
+    def masked(w, m):
+        return ''.join(c.upper() if k == 'U' else c for c, k in zip(w, m))
+
+    def match(reps, j, i):
+        if j == len(reps):
+            return i == len(pw)
+        t = reps[j]
+        cat = t[0]
+        if cat == 'A':
+            n = int(t[1:])
+            piece = pw[i:i + n]
+            if len(piece) != n or j + 1 >= len(reps) or reps[j + 1][0] != 'C':
+                return False
+            masks = values(reps[j + 1])
+            if not any(len(w) == n and any(masked(w, m) == piece for m in masks) for w in set(values(t))):
+                return False
+            return match(reps, j + 2, i + n)
+        if cat in 'DOK':
+            n = int(t[1:])
+            piece = pw[i:i + n]
+            return len(piece) == n and piece in values(t) and match(reps, j + 1, i + n)
+        if cat in 'YX':
+            return any(pw.startswith(v, i) and match(reps, j + 1, i + len(v)) for v in set(values(t)) if v)
+        return False
+    for b in pcfg.base:
+        reps = b['replacements']
+        if any(t[0] in 'MEW' for t in reps):
+            continue
+        if match(reps, 0, 0):
+            return True
+    return False
+
+
 def expand_real(pcfg, pt, limit=None):
     lines = []
     pcfg.print_guess = lines.append
